@@ -6,7 +6,7 @@ from ..core.loader import AnalysisError, dotted, norm, own_nodes, where, full
 from ..core import rx
 from ..core.symexec import run_paths, calls_on
 from ..core.terms import Term
-from .util import evaluator, find_try_handler, raises_in, handler_names
+from .util import evaluator, find_try_handler, raises_in, handler_names, regex_value
 from .streams import _walk
 from .sem import canon_expr, return_canons, local_function, emptiness
 
@@ -17,13 +17,8 @@ A = Term.atom
 
 def _regex(ctx, name):
     node = ctx.prog.assigned(CS, name, "Q1")
-    if not (isinstance(node, ast.Call) and norm(node.func) == "re.compile" and node.args and isinstance(node.args[0], ast.Constant)):
-        raise AnalysisError("Q1", f"{CS}:{name}", "not a re.compile(<literal>)")
-    flags = 0
-    for a in list(node.args[1:]) + [k.value for k in node.keywords if k.arg == "flags"]:
-        for nm in norm(a).replace("re.", "").split("|"):
-            flags |= getattr(re, nm.strip(), 0)
-    return node, node.args[0].value, flags
+    pat, flags = regex_value(ctx, node, ctx.prog.module(CS), "Q1", f"{CS}:{name}")
+    return node, pat, flags
 
 
 def rule_Q1(ctx):
@@ -399,8 +394,8 @@ def rule_C1(ctx):
     ia = "smpl_extract/roland/s7xx/image.py"
     for nm, must in (("_S7XX_REGEX", "S7"), ("_VERSION_REGEX", "Ver"), ("_COPYRIGHT_REGEX", "Copyright")):
         node = ctx.prog.class_assigned(ia, "IdAreaAdapter", nm, "C1")
-        pat = node.args[0].value if isinstance(node, ast.Call) and node.args and isinstance(node.args[0], ast.Constant) else ""
-        fl = "re.I" in full(node)
+        pat, flg = regex_value(ctx, node, ctx.prog.module(ia), "C1", f"{ia}:{nm}")
+        fl = bool(flg & re.I)
         ok = must in pat and fl
         try:
             rx.parse(pat)
